@@ -335,6 +335,10 @@ fn main() {
         .map(|d| d.filter_map(|e| e.ok()).map(|e| e.path()).collect())
         .unwrap_or_default();
     corpus_files.sort();
+    if opts.has_flag("--skip-corpus") {
+        // mutation experiments: does the GENERATOR find it on its own?
+        corpus_files.clear();
+    }
     for f in corpus_files {
         if f.extension().and_then(|e| e.to_str()) != Some("qv") {
             continue;
@@ -393,6 +397,9 @@ fn main() {
     let mut suite_total = 0u64;
     let mut suite_compared = 0u64;
     for (file, src) in qverif::corpus::test_sources() {
+        if opts.has_flag("--skip-corpus") {
+            break;
+        }
         suite_total += 1;
         let Ok(p) = from_real::convert_source(&src) else {
             ev.hit("suite.outside-fragment");
